@@ -233,4 +233,91 @@ theorem writeBack_readText (c : Cfg) (hc : c.posix = false) (fs fs' : FS) (hi : 
             (by rw [hsh.dir a]; exact hda) (by rw [hsh.sym a]; exact hsa) (by rw [hdata]; exact ht)]
           exact hdata
 
+/-- a path whose parent resolves to a directory holding a non-link entry under its base name
+resolves to that entry (for paths whose component list is that of `Dir` followed by `Base`) -/
+theorem resolve_entry {c : Cfg} (hc : c.posix = false) {fs : FS} {p : Text} {pi a : Ino}
+    (hg : getNode c fs (dir p) = .ok pi) (hd : (fs.node pi).dir = true)
+    (hl : fs.lookup pi (base p) = some a) (hs : (fs.node a).isSymlink = false)
+    (hsplit : parts p = parts (dir p) ++ [base p]) (hp : p ≠ dot ∧ dir p ≠ dot) :
+    getNode c fs p = .ok a := by
+  simp only [getNode, resolveFrom, hc, Bool.false_eq_true, if_false] at hg ⊢
+  rw [getNodeD_eq_walk _ _ _ _ hp.2] at hg
+  rw [getNodeD_eq_walk _ _ _ _ hp.1, hsplit]
+  cases hw : walkImpl fs (some (getNodeD fs maxLinks)) (parts (dir p)) 0 [] 0 with
+  | error e => simp [hw, Except.map] at hg
+  | ok v =>
+    obtain ⟨n, c'⟩ := v
+    have hn : n = pi := by simpa [hw, Except.map] using hg
+    subst hn
+    rw [walkImpl_append _ _ _ _ _ _ _ _ _ hw]
+    unfold walkImpl
+    simp [hd, hl, hs, walkImpl, Except.map]
+
+/-- `Create(p)` (then `Close`) where the last component is not a link and not package-backed: the
+entry at `p` is a regular node with no content -/
+theorem createEmpty_post (c : Cfg) (hc : c.posix = false) (fs fs1 : FS) (hi : FS.Inv fs) (p : Text)
+    (hnl : ∀ pi a, getNode c fs (dir p) = .ok pi → fs.lookup pi (base p) = some a →
+      (fs.node a).isSymlink = false ∧ (fs.node a).te = none)
+    (h : createEmpty c fs p = (fs1, none)) :
+    ∃ pi a, getNode c fs1 (dir p) = .ok pi ∧ (fs1.node pi).dir = true ∧ fs1.lookup pi (base p) = some a ∧
+      (fs1.node a).dir = false ∧ (fs1.node a).isSymlink = false ∧ (fs1.node a).data = [] ∧
+      (fs1.node a).te = none ∧ FS.Inv fs1 := by
+  have hi1 : FS.Inv fs1 := by
+    have := openCore_inv c fs p flagsWriteFile createPerm hi
+    unfold createEmpty at h
+    cases ho : openCore c fs p flagsWriteFile createPerm with
+    | mk x r => cases r with
+      | error e => simp [ho] at h
+      | ok hd => simp only [ho, Prod.mk.injEq, and_true] at h; rw [ho] at this; rw [← h]; exact this
+  unfold createEmpty at h
+  cases ho : openCore c fs p flagsWriteFile createPerm with
+  | mk x r =>
+    cases r with
+    | error e => simp [ho] at h
+    | ok hdl =>
+      simp only [ho, Prod.mk.injEq, and_true] at h
+      subst h
+      unfold openCore at ho
+      cases hod : openFileD c flagsWriteFile createPerm maxLinks fs [0] p with
+      | mk fs0 ro =>
+        cases ro with
+        | error e => simp [hod] at ho
+        | ok o =>
+          rw [hod] at ho
+          obtain ⟨pi, hg, hd, hdir⟩ := openFileD_pre c hc _ _ _ fs [0] p fs0 o hod (by decide)
+          have hex : ∀ a, fs.lookup pi (base p) = some a → (fs.node a).dir = false ∧ (fs.node a).isSymlink = false :=
+            fun a hl => ⟨hdir a hl, (hnl pi a hg hl).1⟩
+          obtain ⟨hext, hlk, hda, hsa, hlive, hdp⟩ :=
+            openTarget_facts fs hi pi (base p) createPerm hd (by decide) hex
+          have hte : ((openTarget fs pi (base p) createPerm).1.node (openTarget fs pi (base p) createPerm).2).te = none := by
+            unfold openTarget
+            cases hl : fs.lookup pi (base p) with
+            | some a => exact (hnl pi a hg hl).2
+            | none => simp only []; rw [create_ino, node_create_new fs pi _ _ hd]
+          rw [openFileD_nolink c hc _ _ _ fs [0] p pi (Or.inl (by decide)) hg hd hex (by decide)] at hod
+          generalize openTarget fs pi (base p) createPerm = tg at hod hext hlk hda hsa hlive hdp hte
+          obtain ⟨g, a⟩ := tg
+          simp only [] at hod hext hlk hda hsa hlive hdp hte
+          -- not package-backed: the open returns `g` itself
+          have htl : (if c.backend = Backend.tarfs then teLive c (g.node a) else none) = none := by
+            have : teLive c (g.node a) = none := by simp [teLive, hte]
+            simp [this]
+          simp only [htl, Prod.mk.injEq, Except.ok.injEq] at hod
+          obtain ⟨rfl, rfl⟩ := hod
+          simp only [newMemFile] at ho
+          have htr : oTrunc flagsWriteFile = true := by decide
+          simp only [htr, if_true, Prod.mk.injEq, Except.ok.injEq] at ho
+          obtain ⟨rfl, _⟩ := ho
+          have hsh : ShapeEq g (g.setNode a { g.node a with data := [], mat := true }) :=
+            shape_setNode g a _ rfl rfl rfl rfl
+          have hn : (g.setNode a { g.node a with data := [], mat := true }).node a =
+              { g.node a with data := [], mat := true } := by rw [node_setNode]; simp [hlive]
+          have hE := hext.trans (Ext.of_shape hsh)
+          refine ⟨pi, a, getNode_ext hc hE hg, hE.dir pi hd, ?_, ?_, ?_, ?_, ?_, hi1⟩
+          · simp only [FS.lookup, hsh.children pi]; exact hlk
+          · rw [hsh.dir a]; exact hda
+          · rw [hsh.sym a]; exact hsa
+          · rw [hn]
+          · rw [hn]; exact hte
+
 end Apko.Accounts
